@@ -16,7 +16,8 @@ type GenOpts struct {
 	Plain                bool // "real-file like": all metadata present, defaults everywhere
 	Full                 bool // every optional part present with non-default values (systematic toggles strip parts from it)
 	SmallStrings         bool
-	OnlyKinds            []int // restrict group kinds
+	OnlyKinds            []int   // restrict group kinds
+	ZeroP                float64 // probability that a present optional numeric part carries the value 0 (boundary: present-but-zero)
 }
 
 func p32(v int32) *int32    { return &v }
@@ -129,6 +130,20 @@ func genInfo(r *gen.R, b *Block, o GenOpts) *Info {
 	if o.Full || (!o.Plain && r.Bool()) {
 		in.Visible = pbool(r.Chance(0.5))
 	}
+	if o.ZeroP > 0 {
+		if in.Version != nil && r.Chance(o.ZeroP) {
+			in.Version = p32(0)
+		}
+		if in.Timestamp != nil && r.Chance(o.ZeroP) {
+			in.Timestamp = p64(0)
+		}
+		if in.Changeset != nil && r.Chance(o.ZeroP) {
+			in.Changeset = p64(0)
+		}
+		if in.UID != nil && r.Chance(o.ZeroP) {
+			in.UID = p32(0)
+		}
+	}
 	return in
 }
 
@@ -184,6 +199,23 @@ func GenGroup(r *gen.R, b *Block, kind, n int, ids *idCounter, o GenOpts) *Group
 			}
 			if d.HasVisible {
 				x.Visible = r.Chance(0.5)
+			}
+			if o.ZeroP > 0 {
+				if r.Chance(o.ZeroP) {
+					x.Version = 0
+				}
+				if r.Chance(o.ZeroP) {
+					x.Timestamp = 0
+				}
+				if r.Chance(o.ZeroP) {
+					x.Changeset = 0
+				}
+				if r.Chance(o.ZeroP) {
+					x.UID = 0
+				}
+				if r.Chance(o.ZeroP) {
+					x.Lat, x.Lon = 0, 0
+				}
 			}
 			if d.HasKeyVals {
 				x.Tags = genTags(r, o, false)
@@ -304,9 +336,15 @@ func GenHeader(r *gen.R, o GenOpts) *Header {
 	}
 	if full || r.Bool() {
 		h.ReplTimestamp = p64(r.Int64Range(1104537600, 1893456000))
+		if r.Chance(o.ZeroP) {
+			h.ReplTimestamp = p64(0) // present with value 0: the epoch, not "absent"
+		}
 	}
 	if full || r.Bool() {
 		h.ReplSeq = p64(r.Int64Range(1, 1<<40))
+		if r.Chance(o.ZeroP) {
+			h.ReplSeq = p64(0)
+		}
 	}
 	if full || r.Bool() {
 		h.ReplURL = pstr("https://planet.example.org/replication/" + r.Word())
